@@ -79,6 +79,9 @@ type RunOpts struct {
 	MaxSteps int
 	// Tick: virtual time that passes at every quiescent point of the schedule (0 = none)
 	Tick time.Duration
+	// DeadCalls: before the conversations start, this many calls are made on every client connection with a context
+	// that is already cancelled (alternately a stream open and a unary call)
+	DeadCalls int
 }
 
 // RunConvs executes all conversations concurrently in one bubble.
@@ -152,6 +155,22 @@ func RunConvs(t *testing.T, convs []Conv, o RunOpts) (outs []*ConvOut, tap []Ev,
 		}
 		if o.Setup != nil {
 			o.Setup(w, sched)
+		}
+		// calls made earlier on the same connections with a context that had already ended: they fail, and must leave
+		// the connection as good as new for everything that follows
+		for k := 0; k < o.DeadCalls && !o.Topo.Raw; k++ {
+			for ci := 0; ci < max(1, o.Topo.Clients); ci++ {
+				dctx, dcancel := context.WithCancel(context.Background())
+				dcancel()
+				if k%2 == 0 {
+					if cs, err := w.Conn(ci).NewStream(dctx, StreamDescFor(KindBidi), FullMethod("dead")); err == nil {
+						_ = cs.CloseSend()
+					}
+				} else {
+					_, _ = Invoke(dctx, w.Conn(ci), "dead", []byte("x"))
+				}
+			}
+			Settle()
 		}
 		var wg sync.WaitGroup
 		// all conversations leave one gate in the same instant, so that their opening steps (id allocation,
